@@ -42,19 +42,24 @@ namespace glm
 		vec<L, bool, Q> Result(false);
 		for(length_t i = 0; i < L; ++i)
 		{
+			typedef typename detail::float_t<T>::int_type int_type;
+
 			detail::float_t<T> const a(x[i]);
 			detail::float_t<T> const b(y[i]);
 
-			// Different signs means they do not match.
 			if(a.negative() != b.negative())
 			{
-				// Check for equality to make sure +0==-0
-				Result[i] = a.mantissa() == b.mantissa() && a.exponent() == b.exponent();
+				// Different signs: zero lies between the two values and +0 and -0 are the same value,
+				// so the difference in ULPs is the sum of the distances of each value to zero.
+				int_type const MinInt = std::numeric_limits<int_type>::min();
+				int_type const DistA = a.negative() ? a.i - MinInt : a.i;
+				int_type const DistB = b.negative() ? b.i - MinInt : b.i;
+				Result[i] = DistA <= MaxULPs[i] && DistB <= MaxULPs[i] - DistA;
 			}
 			else
 			{
 				// Find the difference in ULPs.
-				typename detail::float_t<T>::int_type const DiffULPs = abs(a.i - b.i);
+				int_type const DiffULPs = abs(a.i - b.i);
 				Result[i] = DiffULPs <= MaxULPs[i];
 			}
 		}
